@@ -86,6 +86,9 @@ def plan(tier, seed):
             shards.append(("featlay", 3, lay, a, b))
         for a, b in E.chunks(E.n_sequences(9, 4), 729):
             shards.append(("featlay", 4, lay, a, b))
+    for lay in ("R", "N"):      # read-only caller array; view with negative strides
+        for a, b in E.chunks(E.n_sequences(9, 3), 243):
+            shards.append(("featlay", 3, lay, a, b))
     # exception safety: the SAME object first runs a fit that is interrupted at every one of its
     # metric calls / matrix accesses, then the valid fit under test
     for a, b in E.chunks(E.n_graphs(4, 2), 8):
@@ -95,6 +98,13 @@ def plan(tier, seed):
     # class identifiers that are not 0..K-1 (large, non-consecutive values)
     for a, b in E.chunks(E.n_graphs(4, 3), 250):
         shards.append(("glab", 4, 3, True, a, b))
+    # duplicated identifiers in the index array (a bootstrap resample of the rows)
+    shards.append(("gdup", 0, 27))
+    for a, b in E.chunks(E.n_sequences(4, 4), 64):
+        shards.append(("fdup", a, b))
+    # eight samples with pairwise distinct distances (a Golomb ruler): every training order
+    for a, b in E.chunks(40320, 2520):
+        shards.append(("golomb", 8, a, b))
     # seven samples (a heap of three full levels): every sequence over {0..3}, two labelings
     for a, b in E.chunks(E.n_sequences(4, 7), 1024):
         shards.append(("feat7", 7, "euclidean", a, b))
@@ -197,6 +207,37 @@ def programs(shard, seed):
             for lab in E.labelings(n):
                 yield {"model": "SupervisedOPF", "mode": "pre", "W": W,
                        "labels": list(E.spread_classes(lab))}
+    elif kind == "gdup":
+        _, a, b = shard
+        table = E.value_table(seed, 3, zero=True)
+        for gi in range(a, b):
+            W = E.matrix_from_ranks(3, E.graph_ranks(3, 3, gi), table).tolist()
+            for I in ([0, 1, 0, 2], [0, 1, 2, 2], [1, 1, 0, 2], [2, 0, 1, 0]):
+                for lab in E.labelings(4):
+                    yield {"model": "SupervisedOPF", "mode": "pre", "W": W, "I_train": I,
+                           "labels": list(E.rename_classes(lab, seed))}
+    elif kind == "fdup":
+        _, a, b = shard
+        pts = E.lattice("1d", seed)
+        for si in range(a, b):
+            seq = E.sequence_at(4, 4, si)
+            X = [list(pts[i]) for i in seq]
+            for lab in E.labelings(4, max_classes=2):
+                yield {"model": "SupervisedOPF", "mode": "features", "X": X, "metric": "euclidean",
+                       "labels": list(lab), "I_train": [5, 7, 5, 9]}
+    elif kind == "golomb":
+        import itertools
+        _, n, a, b = shard
+        ruler = [0.0, 1.0, 4.0, 9.0, 15.0, 22.0, 32.0, 34.0][:n]
+        sc = [1.0, 0.5, 2.0, 3.0][seed % 4] if seed else 1.0
+        perms = itertools.islice(itertools.permutations(range(n)), a, b)
+        for perm in perms:
+            X = [[ruler[i] * sc] for i in perm]
+            for lab in ([i % 2 for i in range(n)], [0 if ruler[i] < 12 else 1 for i in perm]):
+                if len(set(lab)) < 2:
+                    continue
+                yield {"model": "SupervisedOPF", "mode": "features", "X": X, "metric": "euclidean",
+                       "labels": list(lab)}
     elif kind == "feat7":
         _, n, metric, a, b = shard
         pts = E.lattice("1d", seed)
